@@ -14,6 +14,7 @@ import (
 type Case struct {
 	Tree []Stmt `json:"tree"`
 	Src  string `json:"src"`
+	Pred *Pred  `json:"pred"`
 }
 
 func noteArr(ns []Note) []any {
@@ -45,7 +46,7 @@ func obsJSON(o *Outcome) map[string]any {
 
 // runBatch deploys the contracts of all scenarios (one block), then runs their transactions in blocks of the given
 // sizes (in the given order) and records tx / block events.
-func runBatch(t *testing.T, w *World, res *vh.Result, tr *vh.Trace, scs []*Scenario, r *rand.Rand) {
+func runBatch(t *testing.T, w *World, res *vh.Result, tr, steps *vh.Trace, scs []*Scenario, r *rand.Rand, traceEvery int) {
 	if err := w.Prepare(scs); err != nil {
 		t.Fatalf("prepare: %v", err)
 	}
@@ -60,7 +61,17 @@ func runBatch(t *testing.T, w *World, res *vh.Result, tr *vh.Trace, scs []*Scena
 		var paniced any
 		func() {
 			defer func() { paniced = recover() }()
-			w.RunBlock(blk)
+			w.RunBlock(blk, func() {
+				// code -> spec: statement-level trace of the same transaction in a test VM on the pre-block state
+				for _, s := range blk {
+					if traceEvery > 0 && r.Intn(traceEvery) == 0 {
+						if err := w.TraceRun(s, steps); err != nil {
+							t.Fatalf("trace run: %v", err)
+						}
+						res.Inc("step_traces", 1)
+					}
+				}
+			})
 		}()
 		if paniced != nil {
 			res.Violate(map[string]any{"kind": "panic", "where": "AddBlock"},
@@ -83,6 +94,16 @@ func runBatch(t *testing.T, w *World, res *vh.Result, tr *vh.Trace, scs []*Scena
 			if res.Traces%97 == 1 {
 				res.Sample(map[string]any{"id": s.Name, "src": s.Src, "tree": tree, "observed": obsJSON(&o)})
 			}
+			if s.Pred != nil { // Impl-level prediction of the TLC walk: disagreement is drift, not a verdict
+				same := s.Pred.Halt == o.Halt
+				if same && o.Halt {
+					same = fmt.Sprint(s.Pred.Notes) == fmt.Sprint(noteArr(o.Notes))
+				}
+				if !same {
+					res.AddDrift(map[string]any{"id": s.Name, "src": s.Src, "tree": tree, "predicted": s.Pred, "observed": obsJSON(&o)})
+					res.Inc("drift", 1)
+				}
+			}
 			if o.Halt {
 				res.Inc("halted", 1)
 			} else {
@@ -98,6 +119,8 @@ func runBatch(t *testing.T, w *World, res *vh.Result, tr *vh.Trace, scs []*Scena
 func TestDriver(t *testing.T) {
 	res := vh.NewResult()
 	tr := vh.NewTrace("trace.ndjson")
+	steps := vh.NewTrace("steps.ndjson")
+	traceEvery := vh.EnvInt("VERIF_TRACE_EVERY", 3)
 	var cases []Case
 	if vh.InDir() != "" {
 		if err := vh.ReadJSON("cases.json", &cases); err != nil {
@@ -126,13 +149,15 @@ func TestDriver(t *testing.T) {
 		}
 		var scs []*Scenario
 		for k := i; k < j; k++ {
-			scs = append(scs, &Scenario{Name: fmt.Sprintf("t%d", k), Root: cases[k].Tree, Src: cases[k].Src})
+			scs = append(scs, &Scenario{Name: fmt.Sprintf("t%d", k), Root: cases[k].Tree, Src: cases[k].Src, Pred: cases[k].Pred})
 		}
-		runBatch(t, w, res, tr, scs, r)
+		runBatch(t, w, res, tr, steps, scs, r, traceEvery)
 		inWorld += j - i
 	}
 	res.Inc("trees", len(cases))
 	tr.Close()
+	steps.Close()
+	res.Inc("step_events", steps.N)
 	if err := res.Write(); err != nil {
 		t.Fatal(err)
 	}
